@@ -272,7 +272,7 @@ fn c20(r: &Runner) {
     r.set_rule("each case = (width, facade entry point, operand tuple); the observed value is the pair (facade result, inherent result), both computed on the real code under separate catch_unwind; universes: S(B)^2 for B <= 8, (L(B;A5)+P(B))^2 at {16,63,64,65,127,128,129,192,256,257}; every shift / rotate / bit argument in 0..=B+65 plus u32 extremes; Choice in {0,1}; six impl shapes per binary operator; byte strings and texts for the constructor facades. every case is non-trivial");
     let ws: Vec<usize> = if r.is_thorough() { WIDTHS.to_vec() } else { vec![0, 1, 2, 4, 7, 8, 16, 63, 64, 65, 128, 129, 256, 257] };
     for &bits in &ws {
-        let budget_bin = if r.is_thorough() { 300 } else { 160 };
+        let budget_bin = if r.is_thorough() { 700 } else { 160 };
         let (uv, d) = if bits <= 8 { (small_all(bits), format!("S({bits})")) } else { pick(bits, budget_bin, &[]) };
         // keep S(8)^2 in the quick tier too (256^2 pairs)
         r.universe(&format!("({d})^2 binary facades"), bits, uv.len(), |i, l| {
@@ -295,7 +295,7 @@ fn c20(r: &Runner) {
             }
         });
         // pairs related by construction (a, !a, a+-1, -a, a/2, 2a, ...) over a larger unary universe
-        let (rv, rd) = pick(bits, if r.is_thorough() { 4000 } else { 2000 }, &[]);
+        let (rv, rd) = pick(bits, if r.is_thorough() { 20_000 } else { 2000 }, &[]);
         r.universe(&format!("{rd} x related operands: binary facades"), bits, rv.len(), |i, l| {
             let a = vu(&rv[i]);
             for b in related(bits, &rv[i]) {
@@ -351,7 +351,7 @@ fn c20(r: &Runner) {
             }
         });
         // unary and indexed
-        let (vv, vd) = pick(bits, if r.is_thorough() { 2000 } else { 1000 }, &[]);
+        let (vv, vd) = pick(bits, if r.is_thorough() { 8000 } else { 1000 }, &[]);
         r.universe(&format!("{vd}: unary facades, shifts / rotations / bit index 0..={}", bits + 65), bits, vv.len(), |i, l| {
             let a = vu(&vv[i]);
             l.states(1);
